@@ -658,7 +658,11 @@ class BaseConnector:
     ) -> Connection:
         """Get from pool or create new connection."""
         key = req.connection_key
-        if (conn := await self._get(key, traces)) is not None:
+        # A reused pooled connection is in use like a new one: only take it on
+        # the fast path while the limits leave room, otherwise queue like any
+        # other request (the idle connection is picked up after the wait).
+        available = self._available_connections(key)
+        if available > 0 and (conn := await self._get(key, traces)) is not None:
             # If we do not have to wait and we can get a connection from the pool
             # we can avoid the timeout ceil logic and directly return the connection
             if req.proxy:
@@ -666,7 +670,8 @@ class BaseConnector:
             return conn
 
         async with ceil_timeout(timeout.connect, timeout.ceil_threshold):
-            if self._available_connections(key) <= 0:
+            # _get() did not suspend when it found nothing: still current
+            if available <= 0:
                 await self._wait_for_available_connection(key, traces)
                 if (conn := await self._get(key, traces)) is not None:
                     if req.proxy:
